@@ -47,12 +47,12 @@ fn space_for(tier: Tier) -> (Space, usize) {
     let mut s = Space::new();
     match tier {
         Tier::Quick => {
-            s.ast("G", 6, 64).ast("BR", 4, 64);
+            s.ast("G", 6, 64).ast("BR", 4, 64).ast("BR3", 5, 64);
             s.list("ladder", LADDER.len() as u64, 2);
             (s, 3)
         }
         Tier::Thorough => {
-            s.ast("G", 7, 256).ast("BR", 5, 64);
+            s.ast("G", 7, 256).ast("BR", 5, 64).ast("BR3", 7, 64);
             s.list("ladder", LADDER.len() as u64, 2);
             (s, 4)
         }
